@@ -104,6 +104,39 @@ theorem guarded_secret_needs_unlock {s s' : State} (hr : Reach code s)
     · simp at h
     · simpa using ‹¬ s.locked = true›
 
+/-- **A SignRawTx request is signed with a STORED key only after a successful unlock** — for every combination of
+its two key-selecting fields (`Addr`: empty / a wallet address / another address; `Privkey`: empty / well-formed /
+garbage), in every reachable state, under every schedule. (`Addr` wins over `Privkey`, as in ProcSignRawTx.) -/
+theorem sign_with_stored_key_needs_unlock {s s' : State} (a : AddrKind) (p : PrivKind) (hr : Reach code s)
+    (h : step code s (.sign a p) = some (s', .secret)) : s.auth = true := by
+  apply (reach_code_inv hr).2
+  simp only [step] at h
+  split at h
+  · simp at h
+  · simp only [Option.some.injEq, Prod.mk.injEq] at h
+    cases hl : s.locked with
+    | false => rfl
+    | true => cases a <;> cases p <;> simp [signOut, hl] at h
+
+/-- on a locked wallet (any variant, any state) no field combination makes SignRawTx use a stored key: with an
+`Addr` the answer is ErrWalletIsLocked whatever `Privkey` holds; without one only the caller's own key signs. -/
+theorem sign_locked_never_uses_stored_key (v : Variant) (s s' : State) (o : Out) (a : AddrKind) (p : PrivKind)
+    (hl : s.locked = true) (h : step v s (.sign a p) = some (s', o)) :
+    s' = s ∧ o ≠ .secret ∧ (a ≠ .none → o = .err "ErrWalletIsLocked") := by
+  simp only [step] at h
+  split at h
+  · simp at h
+  · simp only [Option.some.injEq, Prod.mk.injEq] at h
+    obtain ⟨rfl, rfl⟩ := h
+    cases a <;> cases p <;> simp [signOut, hl]
+
+/-- non-vacuity / the request shapes: locked wallet with both fields → refused; unlocked → the stored key of `Addr`
+signs although a key was supplied; no `Addr` → the supplied key signs in any state. -/
+example : (run code {} [.sign .wallet .valid, .sign .wallet .garbage, .sign .none .valid, .unlock true false false,
+      .sign .wallet .valid, .sign .foreign .valid, .lock, .sign .wallet .valid, .sign .none .none]).map (·.2) =
+    some [.err "ErrWalletIsLocked", .err "ErrWalletIsLocked", .supplied, .ok, .secret, .err "ErrAddrNotExist", .ok,
+          .err "ErrWalletIsLocked", .err "ErrNoPrivKeyOrAddr"] := by decide
+
 /-- (any variant; subsumed by `full_statement` for the code as it is): over all interleavings of unlock (right / wrong password,
 wallet or ticket-only, with / without timeout), lock, timeout, readers, guarded handlers and restarts the
 wallet is unlocked only after a successful unlock and before the next lock / timeout. -/
@@ -192,7 +225,7 @@ theorem regression_old_verify_first_failed_change_harmless {s s' : State} {o : O
 a guarded handler (key dump, seed, signing, transfer) is not enabled, so the transient state of
 `regression_old_transient_unlock` can be *seen* but not *used* — unlike the lost lock. -/
 theorem window_excludes_guarded (v : Variant) (s : State) (c : Call) (hc : s.sp = some c) :
-    step v s .guarded = none ∧ (∀ a b t, step v s (.unlock a b t) = none) ∧
+    step v s .guarded = none ∧ (∀ a p, step v s (.sign a p) = none) ∧ (∀ a b t, step v s (.unlock a b t) = none) ∧
     (∀ a b w, step v s (.spBegin a b w) = none) := by
   simp [step, hc]
 
